@@ -27,7 +27,7 @@ def sig(r):
 
 
 def is_uri_case(case):
-    return isinstance(case, dict) and 'base' in case and 'ref' in case and 'target' in case
+    return isinstance(case, dict) and 'base' in case and (('ref' in case and 'target' in case) or ('key' in case and 'tok' in case))
 
 
 def setup():
